@@ -327,7 +327,7 @@ _cached_name = Contract(
            'particular for no module of the project or buffer being edited, may an answer come from it',
     file='jedi/api/completion.py', qualname='Completion._complete_trailer',
     params={'self': Obj('Compl8'), 'previous_leaf': Obj('PNode')},
-    families=['Compl8', 'ModCtxC8', 'ValC8', 'PNode'], ret=Tup(Opt(STR), ANY),
+    families=['Compl8', 'ModCtxC8', 'ValC8', 'PNode'], ret=Tup(Opt(STR), Seq(ANY)),
     ensures=['implies(result[0] is not None, the(result[0]) in ("numpy", "tensorflow", "matplotlib", "pandas"))',
              'result[1] == self._complete_trailer_for_values(infer_call_of_leaf('
              'self._module_context.create_context(previous_leaf), previous_leaf))'],
@@ -341,7 +341,7 @@ def register(reg):
     import z3 as _z3
     reg.add_family(Family('Compl8', attrs={'_module_context': Obj('ModCtxC8')}, methods={
         '_complete_trailer_for_values': FnSpec('Completion._complete_trailer_for_values', params=[('values', Seq(Obj('ValC8')))],
-                                               ret=ANY, pure=True, assumed=True)}))
+                                               ret=Seq(ANY), pure=True, assumed=True)}))
     reg.add_family(Family('ModCtxC8', methods={'create_context': FnSpec('ModuleContext.create_context', params=[('node', Obj('PNode'))],
                                                                        ret=ANY, pure=True, assumed=True)}))
     reg.add_family(Family('ValC8', attrs={'string_names': Seq(STR)}, note='module values completed after a dot have a dotted name (assumed; the module of a path-less buffer is not reachable as the value before a dot)', methods={
